@@ -66,7 +66,7 @@ def run(tier):
             ev.sample(c)
 
         # code -> spec
-        n = 20000 if tier == "quick" else 400000
+        n = 20000 if tier == "quick" else 2000000
         shard = 50000
         done = 0
         k = 0
